@@ -850,6 +850,10 @@ def call_ext(ev, dotted, args, kwargs, node):
             x = as_v(ev, args[0] if args else kwargs.get("x", kwargs.get("q")))
             loc = args[1] if len(args) > 1 else kwargs.get("loc")
             scale = args[2] if len(args) > 2 else kwargs.get("scale")
+            if scale is not None and not (isinstance(as_v(ev, scale), Const)):
+                # scipy.stats returns NaN wherever scale <= 0 (also for scale == 0, a degenerate distribution): recorded for rules whose
+                # scale can vanish (the binomial standard error is 0 for a rate of exactly 0 or 1)
+                ev.event("norm_scale", fn=fn, scale=as_v(ev, scale), node=node)
             if fn in ("ppf", "isf"):
                 # a quantile taken at 1 - q: the complement is formed in floating point first (q below 1e-16 is lost entirely,
                 # q = 1e-12 keeps 4 digits); the survival-function twin (isf for ppf, ppf for isf) takes q itself
